@@ -90,3 +90,38 @@ Inductive ts_take_stmt := TTRecvThenCloneSender.  (* receive one unit (blocking 
 Inductive wr_after :=
 | WASetNoneUnless1xx     (* if !response.is_1xx() { self.write_state = WriteState::None; } *)
 | WAShutdownIfClose.     (* if close { self.shutdown_write(); } *)
+
+(* handle_http_conn_once / handle_http_conn (src/http_conn.rs), statement by statement *)
+Inductive once_err := OEDisconnected | OEAlreadyGotBody | OECacheDirNotConfigured | OEOther.
+Inductive kind_pat := KPNormal | KPDrop | KPGetBody.      (* ResponseKind::Normal | DropConnection | GetBodyAndReprocess(_) *)
+Inductive kind_act :=
+| KAKeepFirst                   (* first_response = Some(response) *)
+| KANothing                     (* {} *)
+| KAReturnErr (e : once_err)    (* return Err(HttpError::e) *)
+| KAReadToFile (e : once_err).  (* let cache_dir = opt_cache_dir.ok_or(HttpError::e)?;
+                                   req.body = http_conn.read_body_to_file(cache_dir, max_len).await?; *)
+Inductive body_pat :=
+| BPKnownLe                     (* RequestBody::PendingKnown(len) if *len <= (small_body_len as u64) *)
+| BPKnownLt                     (* ... if *len < ... *)
+| BPPending                     (* RequestBody::PendingKnown(..) | RequestBody::PendingUnknown *)
+| BPWild.                       (* _ *)
+Inductive body_act :=
+| BAReadToVec                   (* req.body = http_conn.read_body_to_vec().await?; *)
+| BAAskHandler (arms : list (kind_pat * kind_act))
+                                (* let response = request_handler.clone()(req.clone()).await; match response.kind { arms } *)
+| BANothing.
+Inductive once_stmt :=
+| OSReadRequest                 (* let mut req = http_conn.read_request().await?; *)
+| OSInitFirst                   (* let mut first_response = None; *)
+| OSMatchBody (arms : list (body_pat * body_act))      (* match &req.body { arms } *)
+| OSAnswer                      (* let response = match first_response { Some(r) => r, None => request_handler(req).await }; *)
+| OSMatchKind (arms : list (kind_pat * kind_act))      (* match response.kind { arms } *)
+| OSWriteTail (on4xx on5xx : bool) (e : once_err).
+    (* if response.is_normal() && (is_4xx || is_5xx) { let _ignored = write_response(&response).await; Err(e) }
+       else { write_response(&response).await } *)
+Inductive loop_err_act := LAPrint | LAWriteErrorResponse | LAShutdownWrite | LAReturn.
+Inductive loop_stmt :=
+| LSReturnUnlessReady           (* if !http_conn.is_ready() { return; } *)
+| LSOnce                        (* let result = handle_http_conn_once(&mut http_conn, cache dir, small_body_len, handler.clone()).await; *)
+| LSMatchResult (err : list loop_err_act).
+    (* match result { Ok(()) => {} Err(HttpError::Disconnected) => return, Err(e) => { err } } *)
